@@ -574,8 +574,8 @@ F("C08", "halfline-eq-raw-vector", G + "halfline.py", "HalfLine.__eq__", "(self.
   "(self.vector - other.vector).length() < get_eps()", rule="R8.7")
 N("C08", "line-hash-complete-sign-canonicalisation", G + "line.py", "Line.__hash__",
   "    moment = self.sv.cross(unit)\n    forward = hash(('Line', unit, moment))\n    backward = hash(('Line', -unit, -moment))\n    return hash(('Line', forward + backward, forward * backward))",
-  "    if unit[0] < 0 or (unit[0] == 0 and (unit[1] < 0 or (unit[1] == 0 and unit[2] < 0))):\n        unit = -unit\n    moment = self.sv.cross(unit)\n    return hash(('Line', unit, moment))",
-  note="all three components are oriented: a complete canonical sign")
+  "    if unit[0] < -get_eps() or (abs(unit[0]) < get_eps() and (unit[1] < -get_eps() or (abs(unit[1]) < get_eps() and unit[2] < 0))):\n        unit = -unit\n    moment = self.sv.cross(unit)\n    return hash(('Line', unit, moment))",
+  note="all three components are oriented (tolerantly: a component of float noise counts as zero): a complete canonical sign")
 F("C08", "line-hash-partial-sign-canonicalisation", G + "line.py", "Line.__hash__",
   "    moment = self.sv.cross(unit)\n    forward = hash(('Line', unit, moment))\n    backward = hash(('Line', -unit, -moment))\n    return hash(('Line', forward + backward, forward * backward))",
   "    if unit[0] < 0 or (unit[0] == 0 and unit[1] < 0):\n        unit = -unit\n    moment = self.sv.cross(unit)\n    return hash(('Line', unit, moment))",
